@@ -9,7 +9,7 @@ PID = "C25"
 RULE = ("histories of 3..20 client calls (thorough ..50) by one account (one shared ExecutionContext, as PyTezosClient does) against "
         "a simulated node whose account counter and mempool evolve: build a group of 1..3 transfers, fill() / autofill() it one or "
         "more times (the simulation may fail), fill()/autofill() the already filled group again, sign, inject (the node may "
-        "refuse), send() (= autofill+sign+inject), bake (pending operations are applied: counter advances, mempool empties), "
+        "refuse), send() (= autofill+sign+inject), a fill()/autofill() that raises on the client side (a content that cannot be forged), bake (pending operations are applied: counter advances, mempool empties), "
         "another account injects. Discipline: one group at a time (a group is injected or dropped after a refused injection "
         "before the next one is built); explicit counter= overrides are not generated. Oracle: at every injection the payload is "
         "decoded by the reference operation codec; its counters must be c+m+1 .. c+m+k where c is the account's counter on the "
@@ -164,6 +164,17 @@ class World:
             self.g0 = self.gf = self.gs = None
             self.trouble_before = False
             return "ok"
+        if op == "broken_fill":
+            # a client-side failure: the second content cannot be forged (typo in the destination), fill()/autofill() raises
+            bad = dict(_transfer(1), destination="tz1Ke2h7sDdakHJQh8WX4Z372du1KChsksyX")
+            g = OperationGroup(context=self.ctx, contents=[_transfer(0), bad])
+            try:
+                g.fill() if s.get("how", "fill") == "fill" else g.autofill()
+            except Exception:
+                self.flags.add("failed-client-side-fill")
+                self.trouble_before = True
+                return "raised"
+            return "ok"
         if op == "bake":
             for o in self.node.mempool:
                 for c in o["contents"]:
@@ -218,7 +229,9 @@ def histories(draw, max_steps):
 
     while len(steps) < max_steps:
         for _ in range(draw(st.sampled_from([0, 0, 1, 1, 2]))):
-            steps.append({"op": draw(st.sampled_from(["bake", "other", "other", "bake", "sign", "inject", "fill"]))})
+            steps.append({"op": draw(st.sampled_from(["bake", "other", "other", "bake", "sign", "inject", "fill", "broken_fill"]))})
+            if steps[-1]["op"] == "broken_fill":
+                steps[-1]["how"] = draw(st.sampled_from(["fill", "autofill"]))
         steps.append({"op": "build", "k": draw(st.integers(1, 3))})
         if draw(st.integers(0, 4)) == 0:
             steps.append({"op": "send", "accept": draw(st.integers(0, 4)) != 0, "drop": True})
